@@ -36,6 +36,10 @@ func runC03(c *eng.Ctx) {
 	ruleNothingCommittedMeansWait(c)
 	c.Rule("R03.15", "K3")
 	ruleAppendsWakeParkedCommittedReaders(c)
+	c.Rule("R03.4", "K1")
+	ruleReplacedWatermarkSegmentReinitialises(c)
+	c.Rule("R03.7", "K1")
+	ruleReadonlyVerdictIsRechecked(c)
 	p := c.P
 	hw := p.Field(clPkg, "commitLog", "hw")
 	waiters := p.Field(clPkg, "commitLog", "hwWaiters")
@@ -493,6 +497,28 @@ func runC03(c *eng.Ctx) {
 		segF := p.Field(clPkg, "committedReader", "seg")
 		hwF := p.Field(clPkg, "committedReader", "hw")
 		parked := eng.CmpEdges(fn, eng.Load(segF, nil), eng.NilConst, eng.EQ)
+		// "parked" is the state the reader was left in by an earlier call: a nil test that follows an assignment of r.seg
+		// in this call is the not-found test of the lookup, not the parked test
+		{
+			var entryTests []eng.Edge
+			for _, e := range parked {
+				if len(e.From.Instrs) == 0 {
+					continue
+				}
+				assigned, _ := eng.PrecededBy(fn, e.From.Instrs[len(e.From.Instrs)-1], func(x ssa.Instruction) bool {
+					st, ok := x.(*ssa.Store)
+					if !ok {
+						return false
+					}
+					fa, ok := st.Addr.(*ssa.FieldAddr)
+					return ok && fieldIs(fa, segF)
+				})
+				if !assigned {
+					entryTests = append(entryTests, e)
+				}
+			}
+			parked = entryTests
+		}
 		rl := eng.CallsIn(fn, "server/commitlog.committedReader.readLoop")
 		if len(parked) == 0 || len(rl) != 1 {
 			c.Unresolved("r.seg == nil test / readLoop call in committedReader.Read")
@@ -547,6 +573,8 @@ func runC03(c *eng.Ctx) {
 		}
 		isRO := eng.BoolEdges(fn, sig, true)
 		notRO := eng.BoolEdges(fn, sig, false)
+		// (F101) ... or the signal was "read-only" but the verdict no longer holds: the caller syncs and waits again
+		notRO = append(notRO, eng.BoolEdges(fn, eng.Call(-1, "server/commitlog.commitLog.isReadonlyEnd"), false)...)
 		for _, r := range eng.Returns(fn) {
 			if eng.Global("server/commitlog.ErrCommitLogReadonly")(r.Results[0]) {
 				g, _ := eng.GuardedBy(fn, r, isRO)
